@@ -29,6 +29,8 @@ ROOT = os.path.dirname(os.path.dirname(os.path.abspath(__file__)))
 PY = os.environ.get("NIMA_PYTHON", "/venv/bin/python")
 REPO = os.environ.get("NIMA_REPO", "/repo")
 WORKERS = int(os.environ.get("NIMA_WORKERS", "16"))
+# scratch runs against a modified copy of the repository (mutation testing) write elsewhere
+OUT = os.environ.get("NIMA_OUT") or None
 
 
 def _merge_observed(dst: dict, src: dict) -> None:
@@ -244,7 +246,7 @@ def conclude(check, tier, seed, merged, harness_errors, wall) -> int:
     for w in violations:
         by_key.setdefault(_hash_key(w["key"]), []).append(w)
 
-    replay_dir = os.path.join(ROOT, "replays", prop)
+    replay_dir = os.path.join(OUT or ROOT, "replays", prop)
     lines: list[str] = []
     for f in known:
         lines.append(
@@ -259,7 +261,7 @@ def conclude(check, tier, seed, merged, harness_errors, wall) -> int:
             json.dump({"property": prop, "key": w["key"], "case": w.get("case"),
                        "detail": w.get("detail"), "count": len(ws), "seed": seed, "tier": tier},
                       fh, indent=1, default=str)
-        lines.append(f"VIOLATION property={prop} replay={os.path.relpath(path, ROOT)}"
+        lines.append(f"VIOLATION property={prop} replay={os.path.relpath(path, OUT or ROOT)}"
                      f" key={json.dumps(w['key'], sort_keys=True)} count={len(ws)}")
 
     floors = getattr(check, "FLOORS", {})
@@ -311,8 +313,8 @@ def conclude(check, tier, seed, merged, harness_errors, wall) -> int:
         "witnesses_total": len(merged["witnesses"]),
         "witnesses_matched_known": len(merged["witnesses"]) - len(violations),
     }
-    os.makedirs(os.path.join(ROOT, "evidence"), exist_ok=True)
-    with open(os.path.join(ROOT, "evidence", f"{prop}.json"), "w") as fh:
+    os.makedirs(os.path.join(OUT or ROOT, "evidence"), exist_ok=True)
+    with open(os.path.join(OUT or ROOT, "evidence", f"{prop}.json"), "w") as fh:
         json.dump(evidence, fh, indent=1, default=str)
 
     for ln in lines:
